@@ -293,7 +293,7 @@ func (cr *caseRun) judge(mut int) (v verdict) {
 			}
 			if match < 0 {
 				v.category = "wrong-text"
-				v.kind = "wrong-text"
+				v.kind = refineKind(cr, o[0].text, v.want)
 				alt := ""
 				if 1 < len(texts) {
 					alt = fmt.Sprintf(" (or one of %d accepted readings)", len(texts))
@@ -634,28 +634,31 @@ func abs64(v int64) uint64 {
 
 const maxReduceRuns = 400
 
-// reduce shrinks a failing case greedily while the same category of failure persists.
+// reduce shrinks a failing case greedily while exactly the same kind of failure persists (same
+// normalised error message, same refined text difference), so that a reduction never wanders from one
+// defect to another one with a different symptom.
 func (cr *caseRun) reduce(v verdict) (*caseRun, verdict) {
 	cur, curV := cr, v
 	runs := 0
-	for changed := true; changed && runs < maxReduceRuns; {
-		changed = false
-		try := func(cand *caseRun) bool {
-			runs++
-			if !surelyTerminates(cand) {
-				return false
-			}
-			cv := cand.judge(refMutNone)
-			if cv.kind != "" && cv.category == curV.category {
-				cur, curV = cand, cv
-				return true
-			}
+	try := func(cand *caseRun) bool {
+		if maxReduceRuns <= runs {
 			return false
 		}
-		for _, c := range controlVariants(cur.control) {
-			if maxReduceRuns <= runs {
-				break
-			}
+		runs++
+		if !surelyTerminates(cand) {
+			return false
+		}
+		cv := cand.judge(refMutNone)
+		if cv.kind != "" && cv.kind == curV.kind {
+			cur, curV = cand, cv
+			return true
+		}
+		return false
+	}
+	for changed := true; changed && runs < maxReduceRuns; {
+		changed = false
+		cvs := controlVariants(cur.control)
+		for _, c := range cvs {
 			if try(&caseRun{control: c, args: cur.args, env: cur.env}) {
 				changed = true
 				break
@@ -664,18 +667,34 @@ func (cr *caseRun) reduce(v verdict) (*caseRun, verdict) {
 		if changed {
 			continue
 		}
-		for _, a := range argVariants(cur.args) {
-			if maxReduceRuns <= runs {
-				break
-			}
+		avs := argVariants(cur.args)
+		for _, a := range avs {
 			if try(&caseRun{control: cur.control, args: a, env: cur.env}) {
 				changed = true
 				break
 			}
 		}
-		if !changed && cur.env != "" {
-			if try(&caseRun{control: cur.control, args: cur.args, env: ""}) {
-				changed = true
+		if changed {
+			continue
+		}
+		if cur.env != "" && try(&caseRun{control: cur.control, args: cur.args, env: ""}) {
+			changed = true
+			continue
+		}
+		// two steps at once: a directive together with an argument, or two directives
+	pairs:
+		for _, c := range cvs {
+			for _, a := range avs {
+				if try(&caseRun{control: c, args: a, env: cur.env}) {
+					changed = true
+					break pairs
+				}
+			}
+			for _, c2 := range controlVariants(c) {
+				if len(c2) < len(c) && try(&caseRun{control: c2, args: cur.args, env: cur.env}) {
+					changed = true
+					break pairs
+				}
 			}
 		}
 	}
@@ -693,13 +712,26 @@ func surelyTerminates(cr *caseRun) (ok bool) {
 		}
 	}()
 	var check func(l []*node, inIter bool) bool
-	advances := func(body []*node) bool {
+	var advances func(body []*node) bool
+	advances = func(body []*node) bool {
 		for _, n := range body {
 			switch n.ch {
-			case 'A', 'S', 'D', 'B', 'O', 'X', 'C', 'R':
+			case 'A', 'S', 'D', 'B', 'O', 'X', 'C', 'R', '?':
 				return true
 			case '{':
-				if !n.at {
+				if !n.at || advances(n.body) {
+					return true
+				}
+			case 'P':
+				if !n.colon {
+					return true
+				}
+			case '[':
+				if !n.at && len(n.params) == 0 {
+					return true
+				}
+			case '*':
+				if !n.at && !n.colon && (len(n.params) == 0 || n.params[0].kind == 0 || (n.params[0].kind == 'n' && 0 < n.params[0].n)) {
 					return true
 				}
 			}
@@ -715,13 +747,11 @@ func surelyTerminates(cr *caseRun) (ok bool) {
 				if n.ch == 'P' && n.colon {
 					return false
 				}
-				if n.ch == '?' {
-					return false
-				}
 			}
 			switch n.ch {
 			case '{':
-				if !advances(n.body) || !check(n.body, true) {
+				// ~:{ and ~:@{ take one (sub)list per pass whatever the body does
+				if (!n.colon && !advances(n.body)) || !check(n.body, true) {
 					return false
 				}
 			case '(':
@@ -746,7 +776,7 @@ func surelyTerminates(cr *caseRun) (ok bool) {
 		switch t := o.(type) {
 		case slip.String:
 			if strings.Contains(string(t), "~") {
-				return check(parseControl(string(t)), false)
+				return check(parseControl(string(t)), true)
 			}
 		case slip.List:
 			for _, e := range t {
@@ -822,25 +852,242 @@ func argClass(o slip.Object) string {
 	return "other"
 }
 
-var reEnglishOnly = regexp.MustCompile(`^~:?R$`)
+var reEnglishOnly = regexp.MustCompile(`^~:?[Rr]$`)
 
-// signature of a (reduced) failing case.
+func without(s, chars string) string {
+	return strings.Map(func(r rune) rune {
+		if strings.ContainsRune(chars, r) {
+			return -1
+		}
+		return r
+	}, s)
+}
+
+// refineKind names how the text differs.
+func refineKind(cr *caseRun, got, want string) string {
+	switch {
+	case reEnglishOnly.MatchString(cr.control) && len(cr.args) == 1:
+		return englishDiff(got, want)
+	case without(got, " ") == without(want, " "):
+		if strings.Count(want, " ") < strings.Count(got, " ") {
+			return "too-many-spaces"
+		}
+		return "too-few-spaces"
+	case without(got, "\n") == without(want, "\n"):
+		if strings.Count(want, "\n") < strings.Count(got, "\n") {
+			return "too-many-newlines"
+		}
+		return "too-few-newlines"
+	case strings.EqualFold(got, want):
+		return "case-differs"
+	}
+	return "wrong-text"
+}
+
+// controls returns the control string and every control string passed as an argument.
+func (cr *caseRun) controls() []string {
+	out := []string{cr.control}
+	var walk func(o slip.Object)
+	walk = func(o slip.Object) {
+		switch t := o.(type) {
+		case slip.String:
+			if strings.Contains(string(t), "~") {
+				out = append(out, string(t))
+			}
+		case slip.List:
+			for _, e := range t {
+				walk(e)
+			}
+		}
+	}
+	for _, a := range cr.args {
+		walk(a)
+	}
+	return out
+}
+
+var reAdjacent = regexp.MustCompile(`~(\)|\]|\}|:?;)~`)
+
+// insideBlock reports the outermost block kind around a directive ch ("?" for a control string
+// passed as an argument), or "" when every occurrence is at the top level of the main control.
+func (cr *caseRun) insideBlock(ch byte) (blk string) {
+	defer func() {
+		if rec := recover(); rec != nil {
+			blk = ""
+		}
+	}()
+	for i, c := range cr.controls() {
+		var walk func(l []*node, outer string) string
+		walk = func(l []*node, outer string) string {
+			for _, n := range l {
+				if n.ch == ch && outer != "" {
+					return outer
+				}
+				o := outer
+				if o == "" && (n.ch == '(' || n.ch == '[' || n.ch == '{') {
+					o = "~" + string(n.ch)
+				}
+				if r := walk(n.body, o); r != "" {
+					return r
+				}
+				for _, cl := range n.clauses {
+					if r := walk(cl, o); r != "" {
+						return r
+					}
+				}
+			}
+			return ""
+		}
+		outer := ""
+		if 0 < i {
+			outer = "~?"
+		}
+		if r := walk(parseControl(c), outer); r != "" {
+			return r
+		}
+	}
+	return ""
+}
+
+// spaced returns the case with a space inserted between every block end / clause separator `what`
+// ("" = all of them) and a directive that follows it directly, in the control string and in every
+// control string passed as an argument. ok is false when nothing changed.
+func (cr *caseRun) spaced(what string) (out *caseRun, ok bool) {
+	fix := func(c string) string {
+		// repeat: matches can overlap ("~}~}~}")
+		for {
+			n := reAdjacent.ReplaceAllStringFunc(c, func(m string) string {
+				if what != "" && m[1:len(m)-1] != what {
+					return m
+				}
+				return m[:len(m)-1] + " ~"
+			})
+			if n == c {
+				return c
+			}
+			c = n
+		}
+	}
+	var conv func(o slip.Object) slip.Object
+	conv = func(o slip.Object) slip.Object {
+		switch t := o.(type) {
+		case slip.String:
+			if f := fix(string(t)); f != string(t) {
+				ok = true
+				return slip.String(f)
+			}
+		case slip.List:
+			nl := make(slip.List, len(t))
+			for i, e := range t {
+				nl[i] = conv(e)
+			}
+			return nl
+		}
+		return o
+	}
+	out = &caseRun{env: cr.env, control: fix(cr.control)}
+	ok = out.control != cr.control
+	for _, a := range cr.args {
+		out.args = append(out.args, conv(a))
+	}
+	return out, ok
+}
+
+// unparameterised returns the case with the prefix parameters of every block directive that sits
+// inside another block removed (main control only). ok is false when nothing changed.
+func (cr *caseRun) unparameterised() (out *caseRun, ok bool) {
+	defer func() {
+		if rec := recover(); rec != nil {
+			out, ok = nil, false
+		}
+	}()
+	nodes := parseControl(cr.control)
+	var walk func(l []*node, depth int)
+	walk = func(l []*node, depth int) {
+		for _, n := range l {
+			if (n.ch == '{' || n.ch == '[' || n.ch == '(') && 0 < depth && 0 < len(n.params) {
+				for _, p := range n.params {
+					if p.kind == 'v' {
+						return
+					}
+				}
+				n.params = nil
+				ok = true
+			}
+			walk(n.body, depth+1)
+			for _, c := range n.clauses {
+				walk(c, depth+1)
+			}
+		}
+	}
+	walk(nodes, 0)
+	return &caseRun{control: unparse(nodes), args: cr.args, env: cr.env}, ok
+}
+
+// signature of a (reduced) failing case. Defect classes that show up under very many shapes are named
+// by their syntactic trigger instead of the shape:
+//   - a directive that directly follows a nested block end or a clause separator: named so only when
+//     the same case with a space inserted there passes (causal check);
+//   - ~T / ~& inside a block whose only visible effect is the number of spaces / newlines;
+//   - ~@( whose only visible effect is the case of letters.
 func signature(cr *caseRun, v verdict) string {
 	var classes []string
 	for _, a := range cr.args {
 		classes = append(classes, argClass(a))
 	}
-	kind := v.kind
 	sh := shape(cr.control)
-	if v.category == "wrong-text" && reEnglishOnly.MatchString(cr.control) && len(cr.args) == 1 {
-		// English spelling: name the first word that differs instead of the argument class.
-		return fmt.Sprintf("shape=%s kind=%s", sh, englishDiff(v.obs[0].text, v.want))
+	if v.category == "wrong-text" && (strings.HasPrefix(v.kind, "wrong-word") || v.kind == "spelling-ok-but-spacing-wrong") {
+		return fmt.Sprintf("shape=%s kind=%s", sh, v.kind)
+	}
+	if v.category == "error" || v.category == "go-fault" || v.category == "wrong-text" {
+		for _, what := range []string{")", "]", "}", ";", ":;", ""} {
+			if sp, changed := cr.spaced(what); changed && surelyTerminates(sp) {
+				if sv := sp.judge(refMutNone); sv.defined && sv.kind == "" {
+					name := "~" + what
+					if what == "" {
+						name = "several-block-ends"
+					}
+					if what == ":;" {
+						name = "~;"
+					}
+					return fmt.Sprintf("trigger=directive-directly-after-%s kind=%s", name, v.category)
+				}
+			}
+		}
+	}
+	if v.category == "error" || v.category == "go-fault" || v.category == "wrong-text" {
+		if up, changed := cr.unparameterised(); changed && surelyTerminates(up) {
+			if uv := up.judge(refMutNone); uv.defined && uv.kind == "" {
+				return fmt.Sprintf("trigger=nested-block-with-prefix-parameter kind=%s", v.category)
+			}
+			if sp, changed2 := up.spaced(""); changed2 && surelyTerminates(sp) {
+				if sv := sp.judge(refMutNone); sv.defined && sv.kind == "" {
+					return fmt.Sprintf("trigger=nested-block-with-prefix-parameter kind=%s", v.category)
+				}
+			}
+		}
+	}
+	switch {
+	case strings.HasSuffix(v.kind, "-spaces"):
+		if blk := cr.insideBlock('T'); blk != "" {
+			return fmt.Sprintf("trigger=~T-inside-%s kind=%s", blk, v.kind)
+		}
+	case strings.HasSuffix(v.kind, "-newlines"):
+		if blk := cr.insideBlock('&'); blk != "" {
+			return fmt.Sprintf("trigger=~&-inside-%s kind=%s", blk, v.kind)
+		}
+	case v.kind == "case-differs":
+		for _, c := range cr.controls() {
+			if strings.Contains(c, "~@(") {
+				return fmt.Sprintf("trigger=~@( kind=%s", v.kind)
+			}
+		}
 	}
 	env := ""
 	if cr.env != "" {
 		env = " env=" + cr.env
 	}
-	return fmt.Sprintf("shape=%s args=%s%s kind=%s", sh, strings.Join(classes, ","), env, kind)
+	return fmt.Sprintf("shape=%s args=%s%s kind=%s", sh, strings.Join(classes, ","), env, v.kind)
 }
 
 func englishDiff(got, want string) string {
